@@ -11,7 +11,8 @@ Proof.
   intros V. destruct o; cbn [track].
   - destruct (o_res ob); cbn [g_void]; auto.
   - destruct (is_live_ptr (g_live g) ptr); [destruct (o_res ob); cbn [g_void]; auto|].
-    destruct (exempt hb (g_written g) ptr); [reflexivity|]. destruct (o_res ob); cbn [g_void]; auto.
+    destruct (wexempt (g_written g) ptr); [reflexivity|]. destruct (o_res ob); cbn [g_void]; auto.
+    destruct (ptr <? hb + header_size); [reflexivity|exact V].
   - destruct (in_live (g_live g) addr); cbn [g_void]; auto.
   - exact V.
   - exact V.
@@ -46,7 +47,7 @@ Proof.
 Qed.
 
 Lemma pages_ok s m g : Inv s m g -> (m_pages m <=? max_wasm_pages) = true.
-Proof. intros [_ _ _ (A & B) _ _]. apply N.leb_le. lia. Qed.
+Proof. intros [_ _ _ _ _ (A & B) _ _]. apply N.leb_le. lia. Qed.
 
 Theorem step_sound s m g o :
   Inv' s m g ->
@@ -100,7 +101,7 @@ Proof.
     + split; [|split; [|reflexivity]].
       * unfold step_ok. rewrite NV. cbn [orb o_pages o_res m_pages]. rewrite PGOK, IL. reflexivity.
       * right. exact HI.
-  - pose proof HI as [_ _ _ (P1 & P2) P3 _].
+  - pose proof HI as [_ _ _ _ _ (P1 & P2) P3 _].
     destruct (grow m pages) as [m1|] eqn:GR.
     + unfold grow in GR. destruct (m_pages m + pages <=? m_max m) eqn:LE; [|discriminate]. injection GR as <-.
       apply N.leb_le in LE. split; [|split; [|reflexivity]].
@@ -110,7 +111,7 @@ Proof.
     + split; [|split; [|reflexivity]].
       * unfold step_ok. rewrite NV. cbn [orb o_pages o_res m_pages]. rewrite PGOK. reflexivity.
       * right. cbn [track o_pages]. destruct m as [pg mx dt]. apply (Inv_pages s (mkMem pg mx dt) g pg); auto. cbn [m_pages m_max] in *. lia.
-  - pose proof HI as [_ _ _ (P1 & P2) P3 _]. split; [|split; [|reflexivity]].
+  - pose proof HI as [_ _ _ _ _ (P1 & P2) P3 _]. split; [|split; [|reflexivity]].
     + unfold step_ok. rewrite NV. cbn [orb o_pages o_res m_pages].
       assert ((N.min pages (m_max m) <=? max_wasm_pages) = true) as -> by (apply N.leb_le; lia). reflexivity.
     + cbn [track o_pages m_pages]. rewrite NV. cbn [orb].
@@ -144,6 +145,8 @@ Proof.
   intros P1 P2 Z. constructor; cbn [init_st init_mem ghost0 g_shadow g_written g_dead g_pages s_poisoned m_pages m_max]; auto.
   - intros a v H. discriminate.
   - intros a v H. discriminate.
+  - intros a [].
+  - intros p sz [].
   - intros _. exists [], (fun _ => None). constructor; cbn [init_st init_mem ghost0 s_hb s_bumper s_heads s_ba g_live g_written m_data tiles live_bytes In]; auto.
     + apply align_up_mod8.
     + apply align_up_lt.
